@@ -5,7 +5,7 @@ check reports a VIOLATION ("killed"), all stay green ("survived") or the tree do
 /repo is restored (git checkout) after every mutant. Survivors are *candidates* for generator gaps;
 each one has to be read by a human: many are equivalent mutants or lie outside every property.
 
-usage: mutate.py <crate-relative-file> <parts comma separated> [--max N] [--seed S] [--only-line L] [--redo]
+usage: mutate.py <crate-relative-file> <parts comma separated> [--max N] [--seed S] [--only-line L] [--redo] [--family ops|err|del]
        a part is ENGINE:ID, e.g. pcheck:C14,pcheck:C11,echeck:C17 (dev profile; the engines are the
        same binaries ./check runs, their evidence goes to /verif/mutate/tmp so that the committed
        evidence is not touched); results are appended to /verif/mutate/results.jsonl
@@ -29,10 +29,14 @@ OPS = [
 ]
 
 
-def candidates(path):
+ERR_VARIANTS = ["Frame", "FrameUnexpected", "ClosedCriticalStream", "StreamCreation", "MissingSettings", "Settings", "Id", "ExcessiveLoad", "Message", "RequestRejected", "BufferedStreamRejected", "Datagram", "Decompression", "NoError"]
+
+
+def candidates(path, family="ops"):
     src = open(path).read().split("\n")
     out = []
     in_tests = False
+    present = sorted(set(re.findall(r"ErrorCode::(\w+)", "\n".join(src))))
     for i, line in enumerate(src):
         s = line.strip()
         if s.startswith("#[cfg(test)]"):
@@ -45,6 +49,22 @@ def candidates(path):
             # registry constants are covered by C16's comparison with the independent registry
             continue
         code = line.split("//")[0]
+        if family == "err":
+            # an error code replaced by another variant used in the same file (same type: compiles)
+            for m in re.finditer(r"ErrorCode::(\w+)", code):
+                v = m.group(1)
+                if v not in ERR_VARIANTS:
+                    continue
+                others = [o for o in present if o != v and o in ERR_VARIANTS] or [o for o in ERR_VARIANTS if o != v]
+                o = others[(i + m.start()) % len(others)]
+                new = code[:m.start()] + "ErrorCode::" + o + code[m.end():] + line[len(code):]
+                out.append((i, 100, m.start(), line, new))
+            continue
+        if family == "del":
+            # a statement that is only a call, deleted
+            if re.match(r"^\s*[a-z_][\w\.]*(\(|\.)[^=]*;\s*$", code) and not s.startswith(("let ", "return", "break", "continue", "use ", "pub ", "}")) and "=" not in code.split("(")[0]:
+                out.append((i, 200, 0, line, re.match(r"^\s*", line).group(0) + "// (statement deleted)"))
+            continue
         for k, (pat, rep) in enumerate(OPS):
             for m in re.finditer(pat, code):
                 # skip generics / lifetimes for the relational operators
@@ -65,18 +85,19 @@ def sh(cmd, timeout):
 
 def main():
     rel, ids = sys.argv[1], sys.argv[2].split(",")
-    mx, seed, only, redo = 10, 1, None, False
+    mx, seed, only, redo, family = 10, 1, None, False, "ops"
     a = sys.argv[3:]
     while a:
         if a[0] == "--max": mx = int(a[1]); a = a[2:]
         elif a[0] == "--seed": seed = int(a[1]); a = a[2:]
         elif a[0] == "--only-line": only = int(a[1]); a = a[2:]
         elif a[0] == "--redo": redo = True; a = a[1:]
+        elif a[0] == "--family": family = a[1]; a = a[2:]
         else: a = a[1:]
     path = os.path.join(REPO, rel)
     if sh(f"git -C {REPO} status --short", 60)[1].strip():
         print("refusing: /repo has local changes"); sys.exit(2)
-    src, cand = candidates(path)
+    src, cand = candidates(path, family)
     if only is not None:
         cand = [c for c in cand if c[0] + 1 == only]
     rnd = random.Random(seed)
